@@ -245,6 +245,41 @@ def _ret(fn, arm=None):
     return rets
 
 
+def weighted_choice(ctx, rule):
+    """CobaRandom.choice with weights: the item returned is the first one whose cumulative weight strictly exceeds U*tot (U in [0,1)).
+    Accepted searches: the linear scan with a strict `<`, or a right-bisection of the cumulative weights.  `<=` / bisect_left select an item of
+    weight zero when U*tot lands exactly on a cumulative weight (in particular U == 0 with a zero-weight first item)."""
+    fn = ctx.fn(RND, "CobaRandom.choice")
+    TOT = name_bound(fn, lambda v: unparse(v) == "sum(weights)", "tot")
+    x_txt = (f"next(self._randu) * {TOT}", f"{TOT} * next(self._randu)")
+    found = 0
+    maps = [c for c in walk_shallow(fn) if isinstance(c, ast.Call) and call_name(c) == "map" and len(c.args) == 2
+            and isinstance(c.args[1], ast.Call) and call_name(c.args[1]) == "accumulate"]
+    for c in maps:
+        found += 1
+        f = c.args[0]
+        ok_shape = isinstance(f, ast.Attribute) and unparse(f.value) in x_txt and unparse(c.args[1]) == "accumulate(weights)"
+        strict = isinstance(f, ast.Attribute) and f.attr == "__lt__"
+        ctx.ob(rule, RND, "CobaRandom.choice", c,
+               "weighted choice uses U*tot < cum_k (strict): with U closed at 0 a zero-weight prefix is never selected, and a hit exists because U*tot < tot",
+               ok_shape and strict, detail={"comparison": unparse(f), "U": "[0,1) closed at 0"})
+        p = parent(c)
+        ok_first = isinstance(p, ast.Call) and call_name(p) == "compress" and unparse(p.args[0]) == "seq" and isinstance(parent(p), ast.Call) and call_name(parent(p)) == "next"
+        ctx.ob(rule, RND, "CobaRandom.choice", c, "the first index passing the comparison is returned (next(compress(seq, ...)))", ok_first, stmt="first hit:" + unparse(c)[:80])
+    for c in [c for c in walk_shallow(fn) if isinstance(c, ast.Call) and (call_name(c) or "").split(".")[-1] in ("bisect", "bisect_left", "bisect_right")]:
+        found += 1
+        right = (call_name(c) or "").split(".")[-1] in ("bisect", "bisect_right")
+        ok_args = len(c.args) >= 2 and "accumulate(weights)" in unparse(c.args[0]) and unparse(c.args[1]) in x_txt
+        ctx.ob(rule, RND, "CobaRandom.choice", c, "a bisection of the cumulative weights is a RIGHT bisection of U*tot (first index whose cumulative weight is strictly greater)",
+               right and ok_args, detail={"search": unparse(c)[:100]}, stmt="cumulative-weight bisection")
+    if not found:
+        ctx.ob(rule, RND, "CobaRandom.choice", fn, "the weighted search is one of the forms the rule understands (strict linear scan / right bisection)", None, stmt="weighted search form")
+    tots = assigned_value(fn, TOT)
+    ctx.ob(rule, RND, "CobaRandom.choice", fn, "tot is sum(weights) and a zero total is rejected",
+           len(tots) == 1 and unparse(tots[0]) == "sum(weights)" and any(isinstance(x, ast.If) and unparse(x.test) == f"{TOT} == 0" and any(isinstance(y, ast.Raise) for y in x.body) for x in walk_shallow(fn)),
+           stmt="tot")
+
+
 def r3_intervals(ctx):
     ctx.rule("C05.R3", "interval abstract interpretation of every consumer of the uniform stream (real arithmetic): "
                        "uniform in [0,1); random/randoms in [min,max); randint/randints in [a,b]; choice index in [0,len-1]; "
@@ -327,33 +362,14 @@ def r3_intervals(ctx):
         ctx.ob("C05.R3", RND, "CobaRandom.randints", comp, "randints() elements in [a,b]" + (" (a == 0 arm)" if arm_a0 else ""), ok and stream_ok, detail=d)
     # --- choice (unweighted index)
     fn = ctx.fn(RND, "CobaRandom.choice")
-    subs = [x for x in walk_shallow(fn) if isinstance(x, ast.Subscript) and unparse(x.value) == "seq" and isinstance(parent(x), ast.Return)]
+    subs = [x for x in walk_shallow(fn) if isinstance(x, ast.Subscript) and unparse(x.value) == "seq" and isinstance(parent(x), ast.Return)
+            and "weights" not in unparse(x.slice)]  # a weighted search written as seq[bisect(...)] is the business of weighted_choice()
     ctx.floor("C05.R3", "unweighted choice index", len(subs), 1)
     A = Abs({"len(seq)": Itv(sym("len"), sym("len"), integer=True)}, positive=[sym("len")], nonneg=[])
     for s in subs:
         ok, d = A.check(s.slice, Sym(0), sym("len") - 1)
         ctx.ob("C05.R3", RND, "CobaRandom.choice", s, "unweighted choice index in [0,len-1]", ok, detail=d)
-    # --- weighted choice: strict comparison of U*tot against the cumulative weights
-    maps = [c for c in walk_shallow(fn) if isinstance(c, ast.Call) and call_name(c) == "map" and len(c.args) == 2
-            and call_name(c.args[1]) == "accumulate" if isinstance(c.args[1], ast.Call)]
-    ctx.floor("C05.R3", "cumulative-weight search in choice", len(maps), 1)
-    for c in maps:
-        f = c.args[0]
-        TOT = name_bound(fn, lambda v: unparse(v) == "sum(weights)", "tot")
-        ok_shape = isinstance(f, ast.Attribute) and unparse(f.value) in (f"next(self._randu) * {TOT}", f"{TOT} * next(self._randu)") \
-            and unparse(c.args[1]) == "accumulate(weights)"
-        strict = isinstance(f, ast.Attribute) and f.attr == "__lt__"
-        ctx.ob("C05.R3", RND, "CobaRandom.choice", c,
-               "weighted choice uses U*tot < cum_k (strict): with U closed at 0 a zero-weight prefix is never selected, and a hit exists because U*tot < tot",
-               ok_shape and strict, detail={"comparison": unparse(f), "U": "[0,1) closed at 0"})
-        p = parent(c)
-        ok_first = isinstance(p, ast.Call) and call_name(p) == "compress" and unparse(p.args[0]) == "seq" and isinstance(parent(p), ast.Call) and call_name(parent(p)) == "next"
-        ctx.ob("C05.R3", RND, "CobaRandom.choice", c, "the first index passing the comparison is returned (next(compress(seq, ...)))", ok_first, stmt="first hit:" + unparse(c)[:80])
-    TOT = name_bound(fn, lambda v: unparse(v) == "sum(weights)", "tot")
-    tots = assigned_value(fn, TOT)
-    ctx.ob("C05.R3", RND, "CobaRandom.choice", fn, "tot is sum(weights) and a zero total is rejected",
-           len(tots) == 1 and unparse(tots[0]) == "sum(weights)" and any(isinstance(x, ast.If) and unparse(x.test) == f"{TOT} == 0" and any(isinstance(y, ast.Raise) for y in x.body) for x in walk_shallow(fn)),
-           stmt="tot")
+    weighted_choice(ctx, "C05.R3")
     # --- choicew
     fn = ctx.fn(RND, "CobaRandom.choicew")
     rets = _ret(fn)
